@@ -80,6 +80,85 @@ theorem import_saves_all (fs : FinalSave) (hfs : fs ≠ FinalSave.lenLtLimit) (f
 theorem multiple_of_limit_witness :
     run FinalSave.lenLtLimit 0 5 3 = some [0, 1, 2] ∧ run FinalSave.lenLtLimit 0 2 3 = some [] := by decide
 
+/-! ### faults while batches are saved -/
+
+theorem savedBy_eq_flatten (fs : FinalSave) (frm limit : Nat) : ∀ (bs : List Batch) (p : Option Batch),
+    savedBy fs frm limit bs p = (savesOf fs frm limit bs p).flatten := by
+  intro bs
+  induction bs with
+  | nil =>
+    intro p
+    cases p with
+    | none => simp [savedBy, savesOf]
+    | some b =>
+      cases fs <;> simp only [savedBy, savesOf] <;> (try split) <;> simp
+  | cons b rest ih =>
+    intro p
+    simp only [savedBy, savesOf, List.flatten_append, ih]
+    cases p <;> simp
+
+theorem mergeAll_fixed (fault : Fault) (single : Bool) : ∀ (hs stored : List Nat) (cancelled : Bool) (r : List Nat × Bool),
+    mergeAll fixedCode fault single hs stored cancelled = some r → r.1 = stored ++ hs := by
+  intro hs
+  induction hs with
+  | nil => intro stored cancelled r h; simp [mergeAll] at h; rw [← h]; simp
+  | cons x rest ih =>
+    intro stored cancelled r h
+    simp only [mergeAll, fixedCode, Bool.not_true, Bool.false_and, Bool.false_eq_true, if_false, Bool.and_false] at h
+    by_cases hf : fault = .mergeFails x
+    · simp [hf] at h
+    · simp only [hf, if_false] at h
+      have := ih _ _ r h
+      rw [this]; simp
+
+theorem saveSeq_fixed (fault : Fault) : ∀ (saves : List (List Nat)) (stored l : List Nat),
+    saveSeq fixedCode fault saves stored = some l → l = stored ++ saves.flatten := by
+  intro saves
+  induction saves with
+  | nil => intro stored l h; simp [saveSeq] at h; rw [← h]; simp
+  | cons hs rest ih =>
+    intro stored l h
+    simp only [saveSeq] at h
+    cases hm : mergeAll fixedCode fault (hs.length == 1) hs stored false with
+    | none => rw [hm] at h; cases h
+    | some r =>
+      rw [hm] at h
+      simp only at h
+      have h1 := mergeAll_fixed fault _ hs stored false r hm
+      split at h
+      · cases h
+      · have := ih _ _ h
+        rw [this, h1]; simp
+
+/-- **import_success_means_all_stored.**  Whatever goes wrong while batches are saved — the merge step of any block
+fails, or the context is cancelled while any block is merged — a run that reports success has stored exactly the
+heights `from … to`, in order (for the code as extracted: the one-importer branch returns the merge error, the merge
+loop does not stop at a cancelled context, the final save does not depend on the last batch being short). -/
+theorem import_success_means_all_stored (fault : Fault) (fs : FinalSave) (hfs : fs ≠ FinalSave.lenLtLimit)
+    (frm to limit : Nat) (hft : frm ≤ to) (hl : 0 < limit) (l : List Nat)
+    (h : runF fixedCode fault fs frm to limit = some (some l)) :
+    l = List.range' frm (to + 1 - frm) := by
+  have hrun := import_saves_all fs hfs frm to limit hft hl
+  unfold run at hrun
+  unfold runF at h
+  cases hp : plan (to + 1 - frm) limit with
+  | none => rw [hp] at h; cases h
+  | some bs =>
+    rw [hp] at h hrun
+    simp only [Option.map_some, Option.some.injEq] at h hrun
+    have := saveSeq_fixed fault _ [] l h
+    rw [this, List.nil_append, ← savedBy_eq_flatten, hrun]
+
+/-- a failed merge of a one-importer batch reported as success (seeded change C15-C) -/
+theorem single_merge_error_swallowed_witness :
+    runF { fixedCode with singleReturnsMergeError := false } (.mergeFails 3) .lenPos 3 3 1 = some (some []) ∧
+    runF fixedCode (.mergeFails 3) .lenPos 3 3 1 = some none := by decide
+
+/-- merges that stop at a cancelled context in the final save (seeded change C15-D) -/
+theorem merges_stop_at_cancel_witness :
+    runF { fixedCode with mergesIgnoreContext := false } (.cancelDuringMerge 2) .lenPos 2 3 2 = some (some [2]) ∧
+    runF fixedCode (.cancelDuringMerge 2) .lenPos 2 3 2 = some (some [2, 3]) := by decide
+
 /-- the final-save condition of the current source -/
 def genFinalSave : FinalSave :=
   if Gen.C15.finalSaveCond = "len(ims) > 0" then .lenPos
@@ -89,8 +168,9 @@ def genFinalSave : FinalSave :=
 /-- ✦ facts of the current source -/
 theorem facts_ok :
     Gen.C15.extractErrors = [] ∧ genFinalSave ≠ FinalSave.lenLtLimit ∧
-    Gen.C15.prefSavesPrevious = true ∧ Gen.C15.pins = Pins.C15 := by
-  refine ⟨by decide, by decide, by decide, by decide⟩
+    Gen.C15.prefSavesPrevious = true ∧ Gen.C15.singleBranchReturnsMergeError = true ∧
+    Gen.C15.mergeLoopIgnoresContext = true ∧ Gen.C15.pins = Pins.C15 := by
+  refine ⟨by decide, by decide, by decide, by decide, by decide, by decide⟩
 
 example : run FinalSave.lenPos 0 5 3 = some [0, 1, 2, 3, 4, 5] := by decide
 
